@@ -55,6 +55,17 @@ SCENARIOS.update({
     "close_without_code_vs_text": {"deflate": False, "threads": {"A": [["close", None, ""]], "B": [["send_text", P("B", 0)]],
                                                                   "C": [["close", 1000, "r" * 123]]}},
 })
+BIG = rc.big_payload
+SCENARIOS.update({
+    # frames of the other length classes (16-bit length form; beyond 64 KiB, larger than any buffer or chunk size in the
+    # client) racing with a Close of the application, and with the loop's echo of the server's Close
+    "close_vs_medium_text": {"deflate": False, "threads": {"A": [["close", 1000, "a"]], "B": [["send_text", BIG("B", 0, 300)]]}},
+    "close_vs_large_binary": {"deflate": False, "threads": {"A": [["close", 1000, "a"]], "B": [["send_binary", BIG("B", 0, 140000)]]}},
+    "close_vs_large_incompressible_deflate": {"deflate": True, "threads": {"A": [["close", 1000, "a"]],
+                                                                            "B": [["send_binary", BIG("B", 0, 150000)]]}},
+    "large_send_vs_server_close_echo": {"deflate": False, "threads": {"A": [["send_binary", BIG("A", 0, 140000)]]},
+                                        "loop": {"bytes": SRV_CLOSE, "idle_waits": 0}, "copts": {"ping_rate": 0}},
+})
 BOUND2 = ["close_vs_text", "close_vs_close", "close_vs_ping", "close_vs_server_close_echo"]
 
 
